@@ -14,7 +14,8 @@ CHECKS = {
              "in any state and for any matcher functions over any argument type, is answered by the earliest declared accepting "
              "pattern, bumps only that pattern's counter, and is independent of other methods' clauses and counters; the model is "
              "tied to /repo on every run by co-executing generated clause lists and histories on the real crate and in Coq "
-             "(vm_compute) and comparing which clause answered / whether the call panicked / what verification names.",
+             "(vm_compute) and comparing which clause answered / whether the call panicked / what verification names. "
+             "Also tied through the user-facing path: the same clause lists written as REAL tuple expressions (flat tuples of every arity 2..16 with overlapping patterns at adjacent positions; random nests) against the model on the list in written order.",
         design_ref="DESIGN.md section 7, C01",
         technique="Coq proof (refinement to first_match + frame lemmas) + model/implementation co-execution"),
     "C02": dict(
@@ -46,7 +47,8 @@ CHECKS = {
              "partial-by-default > panic', a call to an unordered method whose patterns all reject resolves to panic (strict) / real function (partial), a missing "
              "real function is a recorded CannotUnmock panic; none of these rows changes a counter, the ordered index or a single-use slot (also over whole histories "
              "of such calls) and none produces a Return/Answer, i.e. the mock never fabricates a value. Tied to /repo by co-executing the whole decision table "
-             "exhaustively (methods x strict/partial x situation x 8 arguments x position), Termination::report as the partial-by-default row.",
+             "exhaustively (methods x strict/partial x situation x 8 arguments x position), Termination::report as the partial-by-default row. "
+             "The probed call is made on the original and on a clone; a receiver part runs default bodies of every receiver kind whose inner calls have no applicable pattern.",
         design_ref="DESIGN.md section 7, C07",
         technique="Coq proof (decision-table identity + quiet-state invariant) + exhaustive table co-execution"),
     "C14": dict(
@@ -62,7 +64,8 @@ CHECKS = {
         text="Machine-checked theorems (Props/C18.v): any re-ordering generated by exchanging adjacent clauses of different methods that are not both ordered leaves "
              "every method's mode and pattern list (slot ranges included), hence every table lookup, unchanged, and the two lists are rejected together; a call's outcome "
              "and effect on the shared state are the same through any live instance; generic instantiations are distinct methods. Tied to /repo by paired runs: each base "
-             "case as is / permuted / re-routed through clones / interleaved with a twin mock must give identical outcomes and verdicts, equal to the model.",
+             "case as is / permuted / re-routed through clones / interleaved with a twin mock must give identical outcomes and verdicts, equal to the model. "
+             "Also run as REAL tuple expressions in three layouts per clause set (chunks, random nest, admissibly re-ordered) and through every receiver kind of the delegation inventory.",
         design_ref="DESIGN.md section 7, C18",
         technique="Coq proof (permutation invariance of assembly, routing lemma) + paired-run co-execution"),
     "C08": dict(
@@ -70,7 +73,8 @@ CHECKS = {
              "real/default implementation of the generated body) and nothing otherwise, so user panics are not recorded; over any history through any instances the list "
              "is exactly the mock-induced panics in order, caught or not; a non-empty list makes teardown of the original return exactly those errors whatever the counters, "
              "the text being their renderings joined by newlines. Tied to /repo by co-executing histories with every error kind at random positions, on original or clone, on "
-             "the creator or another thread, mixed with user panics. Concurrent recording (several threads at once) is covered by C10's scheduler runs.",
+             "the creator or another thread, mixed with user panics. Concurrent recording (several threads at once) is covered by C10's scheduler runs. "
+             "Concurrent part: 2-3 threads making failing calls on the real runtime under the controlled scheduler (all interleavings of the small programs) against the Layer B model, where every error is pushed in one critical section; compared on outcomes and on the verdict as a multiset.",
         design_ref="DESIGN.md section 7, C08",
         technique="Coq proof (append-only error-log invariant over histories) + model/implementation co-execution"),
     "C09": dict(
@@ -110,7 +114,8 @@ CHECKS = {
              "of further lends; lending never drops anything, make_mut and release drop every value exactly once; concurrently through a shared &Unimock, for EVERY schedule of try_insert "
              "steps, every reference shows its own value, no two share a cell, the chain is a permutation of the lent values and only grows. Tied to /repo by re-reading ALL held references "
              "and the live-value count after every step of generated make_ref/make_mut sequences (three value types incl. a zero-sized guard) on original and clones, and by threads lending "
-             "through one instance under the controlled scheduler (all interleavings for small programs). Memory safety itself is delegated to forbid(unsafe_code) (checked textually).",
+             "through one instance under the controlled scheduler (all interleavings for small programs). Memory safety itself is delegated to forbid(unsafe_code) (checked textually). "
+             "Sessions also lend through the instance's delegation helper, call `&mut self` provided methods (AsMut path) and drop instances while their thread unwinds.",
         design_ref="DESIGN.md section 7, C13",
         technique="Coq proof (append-only chain laws; invariants over all schedules) + sequence and scheduler-controlled co-execution with drop counters"),
     "C20": dict(
@@ -119,7 +124,8 @@ CHECKS = {
              "struct (C15 o C04 on the Layer A model), for whole tests interleaving provided and required calls; Termination::report falls through to the real report. Tied to /repo by (1) a wiring "
              "table regenerated on every run from src/mock/*.rs - every method of every mirrored trait called through the upstream trait on four mocks, re-checked in Coq against the Layer A model "
              "(MirrorsCheck.v) - and (2) differential random scripts (short, zero, oversized, Interrupted, hard errors, EOF, Pending) through real upstream provided methods on a Unimock versus a plain "
-             "struct, plus the Coq model for the transcribed bodies.",
+             "struct, plus the Coq model for the transcribed bodies. "
+             "Plus a mirrored local upstream trait with associated constants (default + override, default kept, no default) read by provided methods of the &self / &mut self / by-value kinds, and the receiver conversions of the delegation inventory.",
         design_ref="DESIGN.md section 7, C20",
         technique="Coq proof (induction on free-monad programs; assembler and slot invariant) + regenerated wiring table + differential co-execution of scripts"),
     "C05": dict(
@@ -128,7 +134,8 @@ CHECKS = {
              "the caller's arguments in declaration order (Impossible for `&mut T<'_>`), applies the answer function to the declared receiver and exactly the caller's arguments, and returns its "
              "result and its writes through &mut parameters unchanged; async flavours run nothing at construction or when dropped unpolled and exactly once per await. RPIT futures on `&mut self`/Pin "
              "receivers are excluded as known finding F4 (expansion does not compile). Tied to /repo by generating traits over the grammar (pairwise covering + random, distinct ids, same-typed "
-             "neighbours), compiling them with the real macro into one crate and comparing per method what matcher, answer, caller and evaluation counters observed with the model's prediction.",
+             "neighbours), compiling them with the real macro into one crate and comparing per method what matcher, answer, caller and evaluation counters observed with the model's prediction. "
+             "The Unmock arm is part of the model: the function registered by unmock_with (path form, or an explicit list of `self` / parameter identifiers, any duplicate-free in-range list) receives the mock and exactly those values (C05_unmock_arm), and the entry used is the one written at the method's own position among ALL fn items, skipped receiver-less functions included (C05_unmock_slot); generated traits carry unmock_with entries in every form and skipped functions at random positions.",
         design_ref="DESIGN.md section 7, C05",
         technique="Coq proof (induction over parameter lists; body AST under a move-semantics environment) + generated-program co-execution against the real proc macro"),
     "C17": dict(
@@ -136,7 +143,8 @@ CHECKS = {
              "accepts, and every value passed to returns(): every request on the multi-use path, and the first request on the single-use path, observes the configured value read at the declared type "
              "(same variants, order, count, leaf data; data behind &T seen through a reference into the mock, stable across calls); later single-use requests succeed iff no owned part lies on the "
              "selected path, else fail with CannotReturnValueMoreThanOnce. Proved by structural induction on a Gallina transcription of the macro's kind analysis and the src/output impl table; tied per "
-             "run by rustc-checked acceptance, type_name-checked OutputKind and co-executed values of generated #[unimock] programs.",
+             "run by rustc-checked acceptance, type_name-checked OutputKind and co-executed values of generated #[unimock] programs. "
+             "Accepted types that borrow from self are also generated with the receiver's lifetime written out; eight configuration paths (returns alone, each_call, n_times(1|2|3), at_least_times(1) on some_call and each_call).",
         design_ref="DESIGN.md section 7, C17",
         technique="Coq proof (structural induction over the kind tree) + generated-program co-execution against the real macros; rustc probes for the acceptance boundary"),
     "C19": dict(
@@ -144,7 +152,8 @@ CHECKS = {
              "MockError Display: for every arity the message starts with `Trait::method(d1, .., dn)` in declaration order with `?` iff no Debug and separators exactly between arguments; every "
              "error names the method; a pattern is named `text at file:line`; for guard-free single-alternative patterns the mismatch positions are exactly { i | sub-pattern i rejects }, "
              "independent per position, each with the argument's rendering (wildcards count as positions). Tied to /repo by generated traits and matching! invocations at known lines, compiled "
-             "with the real macros for every error kind and compared on parsed components (call path, argument list, pattern text/file:line or index, mismatch positions and values).",
+             "with the real macros for every error kind and compared on parsed components (call path, argument list, pattern text/file:line or index, mismatch positions and values). "
+             "The Impossible parameter class (`&mut T<'a>`) keeps its own entry at its own position (C19_impossible_keeps_its_position); wrong-order errors are generated at every slot of an n_times(k) pattern in line.",
         design_ref="DESIGN.md section 7, C19",
         technique="Coq proof (rendering lemmas by induction over argument lists / sub-patterns) + generated-program co-execution against the real macros"),
     "C06": dict(
@@ -160,7 +169,8 @@ CHECKS = {
              "directly, in order, on the same shared state (same responses, counters, ordered index, slots, errors) with the body's result built from exactly those responses; every receiver kind "
              "evaluates the same MockFn on the same shared state and only decides what happens to the instance. Tied to /repo by generated clause sets (literal builder chains compiled with the real "
              "macros) and histories mixing direct and delegated calls through &self, &mut self, by-value, Rc/Arc (sole owner and shared) and Pin<&mut Self> receivers on originals and clones. The "
-             "sole-owner Rc/Arc defect found by this check (F2) was repaired by a fix: commit.",
+             "sole-owner Rc/Arc defect found by this check (F2) was repaired by a fix: commit. "
+             "Includes provided methods that also have a registered real function (T::m2).",
         design_ref="DESIGN.md section 7, C15",
         technique="Coq proof (delegation = fold of direct calls over the shared state) + generated-program co-execution through every receiver kind"),
     "C16": dict(
@@ -168,7 +178,8 @@ CHECKS = {
              "naming the method; the function receives the caller's arguments in declaration order (or the listed parameter expressions); calls it makes back into the mock are evaluated on the "
              "same shared state in program order - recursion to ANY depth n, stopping where a nested level is answered by a pattern. Known finding F1 (C16_known_F1_refuted): no arm is generated "
              "for `&mut self`/Pin receivers. Tied to /repo by generated clause sets over an inventory with the three unmock_with forms at different positions (plain, explicit params, `_`, slots "
-             "behind skipped receiver-less functions), u3 recursing to depth 0..7 through partially mocked levels, strict and partial.",
+             "behind skipped receiver-less functions), u3 recursing to depth 0..7 through partially mocked levels, strict and partial. "
+             "Inventory forms: path, path(b, a), path(self, b, a) (explicit list that starts with the mock and permutes the inputs), `_`, entries behind skipped receiver-less functions.",
         design_ref="DESIGN.md section 7, C16",
         technique="Coq proof (finish table, recursion lemma by induction on depth) + generated-program co-execution; F1 as known finding"),
 }
